@@ -1,30 +1,39 @@
-"""C14 / C11: the two PSBT mechanisms of C14 that sit between the descriptor and the PSBT maps (Verus).
+"""C14 / C11: the two PSBT mechanisms of C14 that sit between a descriptor and the PSBT maps (Verus).
 
-A. DESCRIPTOR INFERENCE (src/psbt/finalizer.rs): `get_utxo`, `get_scriptpubkey`, `get_descriptor`.
-B. FIELD POPULATION (src/psbt/mod.rs): `KeySourceLookUp::pk`, `update_item_with_descriptor_helper`, the two
-   `impl PsbtFields` (psbt::Input / psbt::Output), `PsbtExt::{update_input_with_descriptor, update_output_with_descriptor}`,
-   `DescriptorType::segwit_version`, `Descriptor::desc_type`; (src/plan.rs) `Plan::update_psbt_input`.
+A. DESCRIPTOR INFERENCE (src/psbt/finalizer.rs): `get_utxo`, `get_scriptpubkey`, `get_descriptor`, `construct_tap_witness`
+   (+ `PsbtInputSatisfier::psbt_input`, the `From<..> for InputError` impls).
+B. FIELD POPULATION (src/psbt/mod.rs): `KeySourceLookUp::pk`, `update_item_with_descriptor_helper` (all branches, taproot
+   included), both `impl PsbtFields` (psbt::Input / psbt::Output, incl. the trait's default bodies),
+   `Psbt{Input,Output}Ext::update_with_descriptor_unchecked`, `PsbtExt::{update_input_with_descriptor,
+   update_output_with_descriptor}`; (src/descriptor/mod.rs) `DescriptorType::segwit_version`, `Descriptor::desc_type`;
+   (src/plan.rs) `Plan::update_psbt_input` (non-taproot branch; the taproot branch is R9-excluded).
 The descriptor constructors the inference goes through (`Descriptor::new_{pkh, wpkh, sh_wpkh, sh, wsh, sh_wsh, bare}`,
 `Pkh::new`, `Wpkh::new`, `Wsh::new`, `Bare::new`, `Sh::{new, new_wsh, new_wpkh}`) and the script wrappers the updater calls
 (`Wsh::{inner_script, script_pubkey}`, `Wpkh::script_pubkey`, `Sh::{inner_script, script_pubkey, as_inner}`, `Bare` / `Pkh`
-`::script_pubkey`, `Descriptor::script_pubkey`) are the real text as well.  `psbt::Input`, `psbt::Output`, `Psbt`,
-`Transaction`, `TxIn`, `TxOut`, `OutPoint` are the REAL struct definitions of the `bitcoin` source pinned by Cargo.lock.
+`::script_pubkey`, `Pkh::address`, `Descriptor::script_pubkey`) are the real text as well.  `psbt::Input`, `psbt::Output`,
+`Psbt`, `Transaction`, `TxIn`, `TxOut`, `OutPoint` are the REAL struct definitions of the `bitcoin` source pinned by Cargo.lock.
 
 Reuse: the descriptor structs, the stand-ins of the bitcoin crate's script / address / key types and the BIP16 / BIP141
-oracle (`desc_spk`, `sh_redeem`, `desc_explicit`, uninterpreted P2SH / P2WSH / P2WPKH / P2PKH / enc) are IMPORTED from
-units/c16_wrappers.py; the BTreeMap model (uninterpreted `Map<K, V>` view, `get`, `iter`, `Iter::find`) and the closure
-clause registration from units/c14_psbt_satisfier.py; the dependency-source lookup from units/c14_finalize.py.
+oracle (`desc_spk`, `sh_redeem`, `desc_explicit`, `desc_redeem`, `desc_witness_script`, uninterpreted P2SH / P2WSH / P2WPKH /
+P2PKH / enc) are IMPORTED from units/c16_wrappers.py; the BTreeMap model (uninterpreted `Map<K, V>` view, `get`, `iter`,
+`Iter::find`) and the registration of closure / call-site clauses from units/c14_psbt_satisfier.py; the dependency-source
+lookup from units/c14_finalize.py.
 
 Oracles (none read off the code):
   * BIP174: the spent output is `witness_utxo` if present, else `non_witness_utxo.output[prevout.vout]`; the non-witness
-    UTXO must be the transaction named by the prevout's txid; redeemScript / witnessScript are the preimages of the P2SH
-    hash / the P2WSH program; `bip32_derivation` maps a PUBLIC KEY (as it appears in the script) to (master fingerprint,
-    derivation path); an Updater "must only add" consistent data -- a failed update writes nothing.
+    UTXO must be the transaction named by the prevout's txid, witness_utxo alone is for segwit spends; redeemScript /
+    witnessScript are the preimages of the P2SH hash / the P2WSH program; `bip32_derivation` maps a PUBLIC KEY (as it appears
+    in the script) to (master fingerprint, derivation path); an Updater adds only data that belongs to the input / output --
+    a refused update writes nothing.
   * BIP16 / BIP141 output-type recognition and nesting: p2pkh / p2wpkh commit to HASH160(key), p2wsh to SHA256(witnessScript),
     p2sh to HASH160(redeemScript); nested segwit: the redeemScript IS the witness program.
-  * The C14 property text: "updating a PSBT from a descriptor records scripts, key origins [...] consistent with the
-    descriptor's output"; an inferred descriptor must have the scriptPubKey of the output it is inferred for.
-Hash, encode and parse functions are uninterpreted (see the trusted list).
+  * BIP341 / BIP371: key-path witness = the signature alone; script-path witness = <script inputs> <leaf script> <control
+    block>; tap_internal_key, tap_merkle_root, tap_tree, tap_scripts (control block -> script, leaf version) and
+    tap_bip32_derivation (x-only key -> leaf hashes the key is involved in, origin; none for a key outside every leaf).
+  * The C14 property text: "updating a PSBT from a descriptor records scripts, key origins and Taproot data consistent with
+    the descriptor's output"; an inferred descriptor must have the scriptPubKey of the output it is inferred for.
+Hash, encode, parse, key-derivation and taproot-commitment functions are uninterpreted (see the trusted list): the unit decides
+WHICH value goes WHERE and which checks guard it, not the bytes.
 """
 import re
 
@@ -223,14 +232,16 @@ pub proof fn axiom_output_types_exclusive(s: ScriptBuf)
 {}
 
 // ---- keys ----------------------------------------------------------------------------------------------------------------
-pub uninterp spec fn hash160_of_pubkey(pk: PublicKey) -> hash160::Hash;     // HASH160 of the SEC1 serialization
+// the hash pk_h(K) commits to in K's own script context: HASH160 of the SEC1 serialization (ECDSA keys) / of the 32-byte x-only key
+pub uninterp spec fn ctx_key_hash<Pk>(pk: Pk) -> hash160::Hash;
 pub open spec fn spec_pk_new(k: secp256k1::PublicKey) -> PublicKey { PublicKey { compressed: true, inner: k } }
 pub struct PubkeyHash { pub h: hash160::Hash }
 impl PubkeyHash { pub fn to_raw_hash(self) -> (r: hash160::Hash) ensures r == self.h { self.h } }
 impl PublicKey {
     pub fn new(key: secp256k1::PublicKey) -> (r: PublicKey) ensures r == spec_pk_new(key) { PublicKey { compressed: true, inner: key } }
+    pub fn new_uncompressed(key: secp256k1::PublicKey) -> (r: PublicKey) ensures r == (PublicKey { compressed: false, inner: key }) { PublicKey { compressed: false, inner: key } }
     #[verifier::external_body]
-    pub fn pubkey_hash(&self) -> (r: PubkeyHash) ensures r.h == hash160_of_pubkey(*self) { unimplemented!() }
+    pub fn pubkey_hash(&self) -> (r: PubkeyHash) ensures r.h == ctx_key_hash(*self) { unimplemented!() }
     // SEC1 parsing; a parsed key serialises back to the bytes it was parsed from (33 bytes <=> compressed)
     #[verifier::external_body]
     pub fn from_slice(data: &[u8]) -> (r: Result<PublicKey, FromSliceError>) ensures r is Ok ==> r->Ok_0.ser() == data@ { unimplemented!() }
@@ -244,16 +255,16 @@ impl ToPublicKey for PublicKey {
 
 MS_EXT = r"""
 // ---- Miniscript: script decoding / raw-pkh substitution as functions of the script ---------------------------------------
-pub open spec fn map_consistent(m: Map<hash160::Hash, PublicKey>) -> bool {
-    forall|h: hash160::Hash| #[trigger] m.contains_key(h) ==> hash160_of_pubkey(m[h]) == h
+pub open spec fn map_consistent<Pk>(m: Map<hash160::Hash, Pk>) -> bool {
+    forall|h: hash160::Hash| #[trigger] m.contains_key(h) ==> ctx_key_hash(m[h]) == h
 }
-impl<Ctx: ScriptContext> Miniscript<PublicKey, Ctx> {
+impl<Pk: MiniscriptKey + ToPublicKey, Ctx: ScriptContext> Miniscript<Pk, Ctx> {
     // C04: a script that decodes re-encodes to itself
     #[verifier::external_body]
     pub fn decode_consensus(script: &ScriptBuf) -> (r: Result<Self, Error>) ensures r is Ok ==> r->Ok_0.enc() == *script { unimplemented!() }
     // expr_raw_pkh(h) and pk_h(K) with HASH160(K) = h are the same script `DUP HASH160 <h> EQUALVERIFY`
     #[verifier::external_body]
-    pub fn substitute_raw_pkh(&self, pk_map: &BTreeMap<hash160::Hash, PublicKey>) -> (r: Self) ensures map_consistent(pk_map@) ==> r.enc() == self.enc() { unimplemented!() }
+    pub fn substitute_raw_pkh(&self, pk_map: &BTreeMap<hash160::Hash, Pk>) -> (r: Self) ensures map_consistent(pk_map@) ==> r.enc() == self.enc() { unimplemented!() }
 }
 // ScriptContext checks of the constructors: arbitrary results, except that Segwitv0 refuses uncompressed keys (BIP143 policy)
 impl Segwitv0 {
@@ -361,7 +372,7 @@ def key_map_loops(text):
     if not a or not b or b.start() < a.start():
         return None
     inner = ("let keys_ = btree_keys_as_vec(public_keys);\n        let mut j_: usize = 0;\n        while j_ < keys_.len()\n"
-             "            invariant map_consistent(map@), i_ <= psbt_inputs@.len(),\n            decreases keys_@.len() - j_,\n"
+             "            invariant\n                map_consistent(map@), //@@ raw_pkh_map.every_key_is_stored_under_its_own_hash\n                i_ <= psbt_inputs@.len(),\n            decreases keys_@.len() - j_,\n"
              "        {\n            let key = keys_[j_];\n            j_ += 1;")
     outer = ("let mut i_: usize = 0;\n    while i_ < psbt_inputs.len()\n        invariant map_consistent(map@), i_ <= psbt_inputs@.len(),\n"
              "        decreases psbt_inputs@.len() - i_,\n    {\n        let psbt_input = &psbt_inputs[i_];\n        i_ += 1;")
@@ -441,7 +452,7 @@ def get_utxo_contract():
     return Contract(requires=PRE_A, ensures=[
         C("witness_utxo_wins", "%s.witness_utxo is Some ==> r is Ok && *r->Ok_0 == %s.witness_utxo->Some_0" % (INP, INP)),
         C("non_witness_utxo_output_named_by_prevout", "%s.witness_utxo is None && %s ==> r is Ok && *r->Ok_0 == %s.non_witness_utxo->Some_0.output@[prev_vout(%s, %s)]" % (INP, HAS, INP, P, IDX)),
-        C("is_the_spent_output", "r is Ok ==> %s && *r->Ok_0 == spent_output(%s, %s)->Some_0" % (HAS, P, IDX)),
+        C("is_the_spent_output", "r is Ok && %s ==> *r->Ok_0 == spent_output(%s, %s)->Some_0" % (HAS, P, IDX)),
         C("missing_utxo_reported", "%s.witness_utxo is None && %s.non_witness_utxo is None ==> %s" % (INP, INP, err_is("MissingUtxo"))),
         # "Malformed or oversized input is reported as an error value" (C11): a prevout index beyond the outputs of the supplied transaction
         C("prevout_index_out_of_range_is_an_error", "%s.witness_utxo is None && %s.non_witness_utxo is Some && !(%s) ==> r is Err" % (INP, INP, HAS), C11),
@@ -722,8 +733,6 @@ spec fn same_globals(a: Psbt, b: Psbt) -> bool {
     a.unsigned_tx == b.unsigned_tx && a.version == b.version && a.xpub == b.xpub && a.proprietary == b.proprietary && a.unknown == b.unknown
 }
 spec fn psbt_unchanged(a: Psbt, b: Psbt) -> bool { same_globals(a, b) && a.inputs@ =~= b.inputs@ && a.outputs@ =~= b.outputs@ }
-#[verifier::external_body]
-fn update_taproot_fields_excluded<F: PsbtFields>(item: &mut F, tr_derived: &Tr<PublicKey>, bip32_derivation: KeySourceLookUp) { unimplemented!() }
 """
 
 
@@ -732,17 +741,6 @@ def w_spec_fn(name):
     if not m:
         raise Undecided("oracle %s not found in units/c16_wrappers.py UPDATER" % name)
     return m.group(0)
-
-
-@rule("R9-taproot-branch")
-def cut_tr_branch(text):
-    """update_item_with_descriptor_helper: the body of `if let Descriptor::Tr(ref tr_derived) = &derived { .. }` is replaced by a
-    call to a stub that may change the item arbitrarily (nothing assumed, nothing claimed for tr descriptors)."""
-    m = re.search(r"if let Descriptor::Tr\(ref tr_derived\) = &derived\s*\{", text)
-    if not m:
-        return None
-    cl = match_close(text, m.end() - 1)
-    return text[:m.end()] + "\n        update_taproot_fields_excluded(item, tr_derived, bip32_derivation);\n    " + text[cl:]
 
 
 D_ = "derived_desc(*descriptor)"
@@ -1513,12 +1511,113 @@ def tr_clauses():
         C("records_everything_taproot", "%s ==> recorded_tr(*old(item), *final(item), descriptor)" % OK, ())]
 
 
+# ----------------------------------------------------------------------------------------------------------------------
+# construct_tap_witness
+# ----------------------------------------------------------------------------------------------------------------------
+CTX = "src/miniscript/context.rs"
+CTW_PRELUDE = r"""
+// ---- what construct_tap_witness needs of the satisfier layer -------------------------------------------------------------------
+impl MiniscriptKey for XOnlyPublicKey {}
+pub uninterp spec fn pk_of_xonly(k: XOnlyPublicKey) -> PublicKey;
+impl ToPublicKey for XOnlyPublicKey {
+    open spec fn spec_pk(&self) -> PublicKey { pk_of_xonly(*self) }
+    #[verifier::external_body] fn to_public_key(&self) -> (r: PublicKey) { unimplemented!() }
+}
+impl XOnlyPublicKey {
+    // ToPublicKey::to_pubkeyhash (src/lib.rs): for Schnorr the HASH160 of the x-only serialization
+    #[verifier::external_body]
+    pub fn to_pubkeyhash(&self, sig_type: SigType) -> (r: hash160::Hash) ensures sig_type is Schnorr ==> r == ctx_key_hash(*self) { unimplemented!() }
+}
+impl taproot::Signature {
+    pub uninterp spec fn ser(&self) -> Seq<u8>;               // 64 bytes (+ sighash byte)
+    #[verifier::external_body] pub fn to_vec(&self) -> (r: Vec<u8>) ensures r@ == self.ser() { unimplemented!() }
+}
+impl ControlBlock {
+    pub uninterp spec fn ser(&self) -> Seq<u8>;
+    #[verifier::external_body] pub fn serialize(&self) -> (r: Vec<u8>) ensures r@ == self.ser() { unimplemented!() }
+}
+// util::witness_size: only used to pick the smallest candidate
+#[verifier::external_body]
+pub fn witness_size(wit: &Vec<Vec<u8>>) -> usize { unimplemented!() }
+// `for (k, v) in &map`: every entry once
+#[verifier::external_body]
+pub fn btree_iter_as_vec<'a, K, V>(m: &'a BTreeMap<K, V>) -> (r: Vec<(&'a K, &'a V)>)
+    ensures forall|j: int| 0 <= j < r@.len() ==> m@.contains_key(*(#[trigger] r@[j]).0) && m@[*r@[j].0] == *r@[j].1,
+            forall|k: K| m@.contains_key(k) ==> exists|j: int| 0 <= j < r@.len() && *(#[trigger] r@[j]).0 == k,
+{ unimplemented!() }
+"""
+
+CTW_SAT = r"""
+pub open spec fn sat_input(s: PsbtInputSatisfier) -> Input { s.psbt.inputs@[s.index as int] }
+impl<'psbt> PsbtInputSatisfier<'psbt> {
+    // `impl Satisfier<Pk> for PsbtInputSatisfier` at Pk = XOnlyPublicKey; contracts = the clauses unit c14_psbt_satisfier proves for them
+    #[verifier::external_body]
+    pub fn lookup_tap_key_spend_sig(&self, pk: &XOnlyPublicKey) -> (r: Option<taproot::Signature>)
+        requires (self.index as int) < self.psbt.inputs@.len(),
+        ensures r is Some ==> sat_input(*self).tap_internal_key == Some(*pk) && r == sat_input(*self).tap_key_sig,
+                sat_input(*self).tap_internal_key == Some(*pk) && sat_input(*self).tap_key_sig is Some ==> r is Some,
+    { unimplemented!() }
+    #[verifier::external_body]
+    pub fn lookup_tap_control_block_map(&self) -> (r: Option<&BTreeMap<ControlBlock, (ScriptBuf, LeafVersion)>>)
+        requires (self.index as int) < self.psbt.inputs@.len(),
+        ensures r is Some && *r->Some_0 == sat_input(*self).tap_scripts,
+    { unimplemented!() }
+}
+pub uninterp spec fn psbt_sat_ecdsa(s: PsbtInputSatisfier, pk: XOnlyPublicKey) -> Option<bitcoin::ecdsa::Signature>;
+impl<'a, 'psbt> Satisfier<XOnlyPublicKey> for &'a PsbtInputSatisfier<'psbt> {
+    open spec fn spec_ecdsa_sig(&self, pk: &XOnlyPublicKey) -> Option<bitcoin::ecdsa::Signature> { psbt_sat_ecdsa(**self, *pk) }
+    #[verifier::external_body] fn lookup_ecdsa_sig(&self, pk: &XOnlyPublicKey) -> (r: Option<bitcoin::ecdsa::Signature>) { unimplemented!() }
+}
+"""
+
+CTW_ORACLE = r"""
+// ---- oracle: BIP341 witness of a taproot spend ----------------------------------------------------------------------------------
+// key path: "the witness stack [is] a single element, the signature" -- made with the input's internal key (BIP371 PSBT_IN_TAP_KEY_SIG)
+spec fn key_path_witness(inp: Input, w: Seq<Seq<u8>>) -> bool { inp.tap_internal_key is Some && inp.tap_key_sig is Some && w =~= seq![inp.tap_key_sig->Some_0.ser()] }
+// script path: "<script inputs> <script> <control block>", the script being the leaf the control block commits to (BIP371
+// PSBT_IN_TAP_LEAF_SCRIPT: control block -> script, leaf version), of the only leaf version with defined semantics (0xc0),
+// and the script inputs a satisfaction of that script
+spec fn leaf_witness(inp: Input, sat: &PsbtInputSatisfier, mall: bool, cb: ControlBlock, ms: Miniscript<XOnlyPublicKey, Tap>, w: Seq<Seq<u8>>) -> bool {
+    &&& inp.tap_scripts@.contains_key(cb) && inp.tap_scripts@[cb].1 == LeafVersion::TapScript
+    &&& ms.enc() == inp.tap_scripts@[cb].0
+    &&& ms.sat(sat, mall) is Ok && w =~= ms.sat(sat, mall)->Ok_0.push(inp.tap_scripts@[cb].0.bytes()).push(cb.ser())
+}
+spec fn script_path_witness(inp: Input, sat: &PsbtInputSatisfier, mall: bool, w: Seq<Seq<u8>>) -> bool {
+    exists|cb: ControlBlock, ms: Miniscript<XOnlyPublicKey, Tap>| leaf_witness(inp, sat, mall, cb, ms, w)
+}
+"""
+
+
+@rule("R8-tap-script-loop")
+def tap_script_loop(text):
+    """`for (control_block, (script, ver)) in block_map { .. continue .. }` -> index `while` loop over btree_iter_as_vec(block_map),
+    body verbatim (Verus' `for` has no `continue`); the invariant says every stored candidate is the BIP341 witness of a leaf."""
+    m = re.search(r"for (\(\w+, \(\w+, \w+\)\)) in (\w+)\s*\{", text)
+    if not m:
+        return None
+    head = ("let entries_ = btree_iter_as_vec(%s);\n        let mut i_: usize = 0;\n        while i_ < entries_.len()\n"
+            "            invariant i_ <= entries_@.len(), map_consistent(map@), min_wit matches Some(w_) ==> script_path_witness(sat_input(*sat), sat, allow_mall, vv(w_)),\n"
+            "            decreases entries_@.len() - i_,\n        {\n            let %s = entries_[i_];\n            i_ += 1;" % (m.group(2), m.group(1)))
+    return text[:m.start()] + head + text[m.end():]
+
+
+def ctw_contract():
+    INP = "sat_input(*sat)"
+    W = "vv(r->Ok_0)"
+    return Contract(requires=[Clause("callers_checked_p2tr", (), "spk.spec_is_p2tr()"), Clause("index_in_input_maps", (), "(sat.index as int) < sat.psbt.inputs@.len()")], ensures=[
+        C("bip341.ok_is_key_path_or_script_path_witness", "r is Ok ==> key_path_witness(%s, %s) || script_path_witness(%s, sat, allow_mall, %s)" % (INP, W, INP, W)),
+        C("bip341.key_path_preferred_when_internal_key_signed", "%s.tap_internal_key is Some && %s.tap_key_sig is Some ==> r is Ok && key_path_witness(%s, %s)" % (INP, INP, INP, W)),
+        C("bip341.script_path_only_without_key_path_signature", "r is Ok && !(%s.tap_internal_key is Some && %s.tap_key_sig is Some) ==> script_path_witness(%s, sat, allow_mall, %s)" % (INP, INP, INP, W)),
+        C("failure_is_could_not_satisfy_tr", "r is Err ==> r->Err_0 is CouldNotSatisfyTr"),
+    ])
+
+
 DROPPED = [
     "c14_update: imported preludes (c16_wrappers.PRELUDE, the BTreeMap model of c14_psbt_satisfier.PRELUDE) are adapted textually: bitcoin::PublicKey gets its real fields {compressed, inner} and Copy / Eq, ScriptBuf gets Eq, crate::Error gets the ContextError variant, `mod bitcoin` re-exports the stand-ins",
     "c14_update: `&Script` parameters are `&ScriptBuf`; `*script_pubkey` (ScriptBuf deref'd to the unsized Script for `==` / `!=`) is written `script_pubkey` (R7: both compare the script bytes)",
     "c14_update: get_descriptor: the two nested `for` loops building the hash160 -> key map over `bip32_derivation.keys()` of all inputs are index loops over `btree_keys_as_vec` (R8, bodies verbatim); only the invariant needed downstream (every entry's key hashes to its index) is carried, not which keys are collected",
     "c14_update: get_descriptor: `.find(|&(&pk, _sig)| { .. })` -> `.find(|kv: &(&PublicKey, &Signature)| { let pk = *kv.0; .. })` with a ghost contract (R16 / R10); `X?` with an error conversion (crate::Error -> InputError) -> `q_err(X)?`, q_err being the verified desugaring `Err(e) => Err(From::from(e))` (R17: this Verus leaves the converted error unconstrained); `get_scriptpubkey`'s `.map(|utxo| ..)` closure gets a parameter type and an `ensures` (R10)",
-    "c14_update: construct_tap_witness (key-path / script-path witness assembly for p2tr inputs; satisfier, `continue`-heavy loop over tap_scripts, Option<usize> ordering) is NOT verified (R9: not extracted at all); finalize_input_helper, interpreter_check, prevouts are out of this unit (c14_finalize)",
+    "c14_update: construct_tap_witness: `<PsbtInputSatisfier as Satisfier<XOnlyPublicKey>>::f(sat, ..)` -> `PsbtInputSatisfier::f(sat, ..)` (inherent stubs carrying the clauses c14_psbt_satisfier proves; R7); the hash -> x-only key loops as in get_descriptor (R8); `for (control_block, (script, ver)) in block_map { .. continue .. }` -> index `while` loop over btree_iter_as_vec (R8: Verus' `for` has no `continue`; body verbatim); which candidate is the smallest (witness_size, Option<usize> ordering) is not claimed; finalize_input_helper, interpreter_check, prevouts are out of this unit (c14_finalize)",
     "c14_update: trait impls are emitted as inherent methods where a precondition-free inherent form suffices (`Translator<DefiniteDescriptorKey> for KeySourceLookUp::pk` with Self::TargetPk / Self::Error written out, `PsbtExt for Psbt::update_{input,output}_with_descriptor`, `Psbt{Input,Output}Ext::update_with_descriptor_unchecked`); `impl PsbtFields for psbt::Input / Output` stay trait impls of the Verus rendering of the trait; the trait's default bodies (`tap_tree`, `tap_scripts`, `tap_merkle_root` -> None) are emitted into the impl that inherits them",
     "c14_update: `Descriptor::translate_pk` is consumed at T = KeySourceLookUp through a contract (structure rebuilt, `pk` called once per key in order: C20), DefiniteDescriptorKey's derivation / fingerprint / path are uninterpreted (c16_keys); `.map_err(UtxoUpdateError::DerivationError)` is eta-expanded (R12')",
     "c14_update: update_item_with_descriptor_helper, taproot branch: `for (k, v) in xpub_map`, `for leaf in spend_info.leaves()`, `for pk in leaf.miniscript().iter_pk()` iterate the vectors btree_into_vec / tr_leaves_as_vec / pk_iter_as_vec (R8, headers only); `for (hashes, _) in item.tap_key_origins().values_mut() { hashes.sort(); hashes.dedup(); }` -> `btree_values_mut_sort_dedup(..)` with the body lifted into `sort_dedup_step` (`.sort()` / `.dedup()` -> vec_sort / vec_dedup) and verified against the per-value relation of the stub (R14 / R16); invariants and lemma calls are ghost (R10); `#[verifier::loop_isolation(false)]`",
@@ -1599,7 +1698,8 @@ def build(repo):
         vf.fn(DMOD, I + "new_bare", qual="Descriptor", props=FP, contract=Contract(ensures=[C("is_bare", "r is Ok ==> r->Ok_0 == Descriptor::<Pk>::Bare(Bare { ms })")]))
 
     # ---- A. descriptor inference --------------------------------------------------------------------------------------------
-    vf.fn(FIN, "fn:get_utxo", props=PROPS, contract=get_utxo_contract(), rewrites=[lit("R7", "&bitcoin::TxOut", "&TxOut")])
+    # body obligations of get_utxo (indexing) are panic-freedom only: C11
+    vf.fn(FIN, "fn:get_utxo", props=C11, contract=get_utxo_contract(), rewrites=[lit("R7", "&bitcoin::TxOut", "&TxOut")])
     vf.fn(FIN, "fn:get_scriptpubkey", props=PROPS, contract=get_spk_contract(), rewrites=[
         lit("R10", ".map(|utxo| utxo.script_pubkey.clone())", ".map(|utxo: &TxOut| -> (s: ScriptBuf) ensures s == utxo.script_pubkey { utxo.script_pubkey.clone() })")])
     DEREF = sub("R7-script-deref", r"\*script_pubkey\b", "script_pubkey")
@@ -1611,6 +1711,38 @@ def build(repo):
         lit("R10", "let inp = &psbt.inputs[index];", "let inp = &psbt.inputs[index];\n    proof { axiom_output_types_exclusive(script_pubkey); }"),
     ])
     PS.register_closure_clauses(vf, "get_descriptor", lambda tag: C14)
+
+
+    # ---- A'. construct_tap_witness (the p2tr counterpart of descriptor inference) ---------------------------------------------------
+    reg = repo.at(CTX, "enum:SigType")
+    vf._emit(vf._apply(strip_docs(reg.text), [sub("R1-derive", r"#\[derive\([^)]*\)\]", "#[derive(Clone, Copy)]")], "enum:SigType").strip("\n"),
+             dict(origin="repo", file=CTX, lines=reg.lines(), anchor="enum:SigType"))
+    vf.raw(CTW_PRELUDE, keep_vis=True)
+    item_pub(vf, PMOD, "struct:PsbtInputSatisfier", rewrites=[sub("R1-vis", r"(?m)^(\s*)(psbt|index):", r"\1pub \2:")])
+    vf.raw(CTW_SAT, keep_vis=True)
+    vf.raw(CTW_ORACLE)
+    vf.trust("XOnlyPublicKey as MiniscriptKey / ToPublicKey (uninterpreted), to_pubkeyhash(Schnorr), taproot::Signature::to_vec, ControlBlock::serialize, witness_size (arbitrary), btree_iter_as_vec",
+             "serialisations and hashes are uninterpreted; witness_size only orders the candidates; iterating `&map` yields every entry once")
+    vf.trust("PsbtInputSatisfier::{lookup_tap_key_spend_sig, lookup_tap_control_block_map} at Pk = XOnlyPublicKey (external_body) and `impl Satisfier<XOnlyPublicKey> for &PsbtInputSatisfier`",
+             "assumed-from-proved: the contracts are the clauses unit c14_psbt_satisfier proves on the real bodies (asked_key_is_the_internal_key, sig_is_the_tap_key_sig, "
+             "found_whenever_stored, is_this_inputs_tap_scripts); the satisfier's result for a miniscript is an arbitrary function (C01-C03)")
+    with vf.block("impl<'psbt> PsbtInputSatisfier<'psbt>"):
+        vf.fn(PMOD, "impl:PsbtInputSatisfier/fn:psbt_input", qual="PsbtInputSatisfier", props=PROPS, contract=Contract(
+            requires=["(self.index as int) < self.psbt.inputs@.len()"], ensures=[C("is_this_input", "*r == sat_input(*self)")]))
+    UNQUAL = sub("R7-trait-qualified-call", r"<PsbtInputSatisfier as Satisfier<XOnlyPublicKey>>::", "PsbtInputSatisfier::")
+    PUSH_HINT = sub("R10", r"(wit\.push\(control_block\.serialize\(\)\);)",
+                    r"let ghost w0_ = vv(wit);\n            \1\n            proof {\n"
+                    r"                assert(vv(wit) =~= w0_.push(control_block.ser()));\n"
+                    r"                assert(leaf_witness(sat_input(*sat), sat, allow_mall, *control_block, ms, vv(wit)));\n            }")
+    PUSH0 = sub("R10", r"(wit\.push\(ms\.encode\(\)\.into_bytes\(\)\);)", r"let ghost s0_ = vv(wit);\n            \1\n            proof { assert(vv(wit) =~= s0_.push(ms.enc().bytes())); }")
+    vf.fn(FIN, "fn:construct_tap_witness", props=PROPS, contract=ctw_contract(), attrs="#[verifier::loop_isolation(false)]", rewrites=[
+        SCRIPT_REF, key_map_loops, UNQUAL, tap_script_loop, PUSH0, PUSH_HINT,
+        lit("R7", "bitcoin::key::XOnlyPublicKey", "XOnlyPublicKey", required=False)])
+    for pat, tag in ((r"assert\(leaf_witness\(", "bip341.candidate_is_satisfaction_then_leaf_script_then_control_block_of_a_tapscript_leaf"),
+                     (r"assert\(vv\(wit\) =~= s0_\.push\(", "bip341.candidate_is_satisfaction_then_leaf_script_then_control_block_of_a_tapscript_leaf"),
+                     (r"assert\(vv\(wit\) =~= w0_\.push\(", "bip341.candidate_is_satisfaction_then_leaf_script_then_control_block_of_a_tapscript_leaf")):
+        PS.register_call_site(vf, "construct_tap_witness", pat, Clause(tag, C14, "loop step of construct_tap_witness"))
+    PS.register_closure_clauses(vf, "construct_tap_witness", lambda tag: C14)
 
     # ---- B. field population ------------------------------------------------------------------------------------------------
     vf.raw(KEYS_B, keep_vis=True)
@@ -1651,7 +1783,6 @@ def build(repo):
              "value once -- BODY is lifted verbatim into `sort_dedup_step` and verified against the relation the stub states per value")
     vf.spec_obligation("oracle::taproot_bookkeeping_lemmas", TR_SPEC + TR_SPEC2, C14)
     vf.raw(recorded_tr_spec())
-    vf.trust("update_taproot_fields_excluded (external_body, no contract)", "R9: stands for the taproot branch of update_item_with_descriptor_helper; may change the item arbitrarily")
 
     for kind in ("Input", "Output"):
         impl = "impl:PsbtFields for psbt::%s" % kind
